@@ -322,7 +322,8 @@ def tracing_cases(n):
             continue
         c["cfg"]["tracing"] = True
         c["cfg"]["logs_pre"] = rng.choice([0, 1, 2])
-        c["cfg"]["logs_post"] = rng.choice([0, 1, 2, 3])
+        # now and then a burst: more logs after the last await point than fit one forwarding round
+        c["cfg"]["logs_post"] = rng.choice([0, 1, 2, 3, 30, 45])
         pts = ["step"]
         if c["cfg"]["before"] and rng.random() < 0.7:
             pts.append("before")
